@@ -281,7 +281,7 @@ def fragment_tail(sl, anchor_re, name=None):
     return s
 
 
-def fragment_between(sl, start_re, end_re, name=None):
+def fragment_between(sl, start_re, end_re, name=None, allow_continue=False):
     """Head/middle fragment: the text from the unique match of start_re up to (not including) the unique match of
     end_re; both anchors must lie in the same block (the fragment is brace-balanced) and it must not return."""
     header, body = body_of(sl.text)
